@@ -3,7 +3,7 @@
    are modelled and proved; block bodies "as data" / inferred bodies are decided on the implementation
    against generator ground truth). *)
 From Coq Require Import String List ZArith Bool.
-From HV Require Import Base.Pos Model.Addr Model.Schema Model.Ref Model.Collect Model.ValueTargets Proofs.CollectProofs Proofs.ValueTargetsProofs.
+From HV Require Import Base.Pos Model.Addr Model.Schema Model.Ast Model.Merge Model.Ref Model.Collect Model.ValueTargets Model.TargetsBody Proofs.CollectProofs Proofs.ValueTargetsProofs Proofs.TargetsBodyProofs Proofs.TargetsInferredProofs.
 Import ListNotations.
 
 Theorem C09_static_step_contributes_its_name : forall labels attr_val i n rest acc,
@@ -98,3 +98,74 @@ Theorem C09_nesting_refuted_below_reference_declarations :
     In n (t_nested t) /\ wf_expr witness_expr /\ ~ (exists s, t_addr n = (t_addr t ++ [s])%list).
 Proof. exact nested_reference_declaration_refuted. Qed.
 Print Assumptions C09_nesting_refuted_below_reference_declarations.
+
+(* ---- whole bodies: decodeReferenceTargetsForBody (Model/TargetsBody.v) ---- *)
+
+(* nothing is collected for an attribute unknown to the schema (no count / for_each extension, no
+   declared attribute of that name, no any-attribute schema) *)
+Theorem C09_unknown_attribute_declares_nothing : forall exprs n bs b a,
+  attr_known bs (a_name a) = false -> one_attr exprs n bs b a = Some [].
+Proof. exact unknown_attribute_declares_nothing. Qed.
+Print Assumptions C09_unknown_attribute_declares_nothing.
+
+(* ... nor for a block of a type unknown to the schema, whatever it contains: removing it from the file
+   does not change the result *)
+Theorem C09_unknown_block_declares_nothing : forall exprs avals gaps typedecls nfc fuel bs parent attrs pre k post r e,
+  alookup (k_type k) (bs_blocks bs) = None ->
+  body_targets exprs avals gaps typedecls nfc fuel bs parent (Body attrs (pre ++ k :: post) r e) =
+  body_targets exprs avals gaps typedecls nfc fuel bs parent (Body attrs (pre ++ post) r e).
+Proof. exact unknown_block_declares_nothing. Qed.
+Print Assumptions C09_unknown_block_declares_nothing.
+
+(* everything collected for a body comes from a schema-known attribute, from a schema-known block, or
+   is a declaration the body itself stands for (TargetableAs) *)
+Theorem C09_body_targets_sound : forall exprs avals gaps typedecls nfc fuel bs parent b ts t,
+  body_targets exprs avals gaps typedecls nfc (S fuel) bs parent b = Some (Some ts) -> In t ts ->
+  (exists a x, In a (b_attrs b) /\ attr_known bs (a_name a) = true /\ one_attr exprs fuel bs b a = Some x /\ In t x)
+  \/ (exists k ks x, In k (b_blocks b) /\ alookup (k_type k) (bs_blocks bs) = Some ks /\
+                     block_targets exprs avals gaps typedecls nfc (body_targets exprs avals gaps typedecls nfc fuel) fuel ks k = Some (Some x) /\ In t x)
+  \/ (exists s tg, In s (bs_targetable bs) /\ targetable_of_sexp s = Some tg /\ t = targetable_target parent tg).
+Proof. exact body_targets_sound. Qed.
+Print Assumptions C09_body_targets_sound.
+
+(* what a schema-known block contributes: what its body declares under the merged schema, and the
+   targets standing for the block itself (as reference, as type of an attribute, body / dependent body as
+   data, unknown nested references), all at its resolved address with the block's extent and header as
+   range and definition range *)
+Theorem C09_block_target_is_the_block : forall exprs avals gaps typedecls nfc rec n ks k x t,
+  block_targets exprs avals gaps typedecls nfc rec n ks k = Some (Some x) -> In t x ->
+  (exists inner, rec (fst (merge_block_body_schemas ks k)) (Some (k_rng k, k_def_rng k)) (k_body k) = Some (Some inner) /\ In t inner)
+  \/ (exists ba addr own, block_addr_of_sexp (bk_addr ks) = Some (Some ba) /\
+                          block_own_targets exprs gaps typedecls nfc n ks ba addr k = Some own /\ In t own /\
+                          t_addr t = addr /\ t_rng t = Some (k_rng k) /\ t_def t = Some (k_def_rng k)).
+Proof. exact block_targets_in. Qed.
+Print Assumptions C09_block_target_is_the_block.
+
+(* ---- blocks whose body is data: the inferred nested targets ---- *)
+
+(* Every target inferred from a data body is declared exactly one step below the block (or below its
+   parent element): attribute name, block type, index of a list block among the blocks of its type,
+   first label of a map block - at any depth ([deep], Proofs/TargetsInferredProofs.v).  Hypotheses: the
+   parser's tree nests, no constraint of the data body declares targets itself. *)
+Theorem C09_inferred_targets_one_step_below : forall exprs nfc gaps scope self_refs,
+  (forall r e, lookup_rng exprs r = Some e -> wf_expr e /\ inside (e_rng e) r) ->
+  forall fuel addr b obs sr sa ts,
+  bs_no_ref fuel obs = true ->
+  inferred exprs nfc gaps scope self_refs fuel addr b obs sr sa = Some ts ->
+  Forall (fun t => exists s, deep (addr ++ [s])%list t) ts.
+Proof. exact inferred_one_step_below. Qed.
+Print Assumptions C09_inferred_targets_one_step_below.
+
+(* "whose range is that declaration's own extent" is FALSE for the first element of a list (or map) of
+   blocks in a data body: it shares its range with the collection, which is extended over the blocks that
+   follow.  Replayed on the implementation: known finding
+   C09/element-range-not-the-block/.../first-element-widened-over-following-blocks. *)
+Theorem C09_first_block_element_range_refuted :
+  exists coll e0,
+    inferred [] [] [(20, 21)%Z] "" false 5 [SRoot "res"; SAttr "x"] data_body (Some data_body_schema) None [] = Some [coll] /\
+    nth_error (t_nested coll) 0 = Some e0 /\
+    t_addr e0 = [SRoot "res"; SAttr "x"; SAttr "item"; SIdxNum 0] /\
+    t_rng e0 = Some (rb 10 31) /\
+    k_rng (item_block 10 20) = rb 10 20.
+Proof. exact first_list_element_range_refuted. Qed.
+Print Assumptions C09_first_block_element_range_refuted.
